@@ -8,9 +8,9 @@ def _alts(fam):
     # follow it while known_findings.json lists the deviation "key-collision" as open.  Once
     # pending_fixes/C12-dynsampler-key-full-config.diff is applied the code conforms to ideal-key.
     return [
-        dict(name="observed-key", cfg={"quick": f"MC_Samplers_{fam}_obs.cfg", "thorough": f"MC_Samplers_{fam}_obs_big.cfg"}),
         dict(name="ideal-key", cfg={"quick": f"MC_Samplers_{fam}_ideal.cfg", "thorough": f"MC_Samplers_{fam}_ideal_big.cfg"}),
         dict(name="ideal-key-per-rule", cfg={"quick": f"MC_Samplers_{fam}_noshare.cfg", "thorough": f"MC_Samplers_{fam}_noshare_big.cfg"}),
+        dict(name="observed-key", cfg={"quick": f"MC_Samplers_{fam}_obs.cfg", "thorough": f"MC_Samplers_{fam}_obs_big.cfg"}),
     ]
 
 
